@@ -26,7 +26,7 @@ theorem inv_init (nh ns cap : Nat) : Inv (init nh ns cap) := by
 
 theorem inv_step {s s' : State} {a : Act} (hI : Inv s) (hs : step? s a = some s') : Inv s' :=
   ⟨invL_step hI.L hs, invS_step hI.S hs, noLost_step hI.L hI.S hI.W hs, cbLe_step hI.L hI.C hs,
-   seenOrPending_step hI.S hI.J hs, invB_step hI.L hI.B hs⟩
+   seenOrPending_step hI.S hI.J hs, invB_step hI.L hI.S hI.B hs⟩
 
 theorem inv_step' {s : State} (a : Act) (hI : Inv s) : Inv (step s a) := by
   unfold step
@@ -73,6 +73,11 @@ theorem closed_step {s s' : State} {a : Act} {h : Nat} (hL : InvL s) (hu : (s.hs
     repeat' split at hs
     all_goals first | (simp at hs; done) | skip
     all_goals (simp only [Option.some.injEq] at hs; subst hs; simp [setH, upd]; first | done | grind)
+  | fork =>
+    simp only [step?] at hs
+    split at hs
+    · simp only [Option.some.injEq] at hs; subst hs; simp [h2.2, hu]
+    · simp at hs
   | eintr w => cases step?_eintr hs; exact ⟨hu, rfl⟩
   | closeCbs =>
     simp only [step?] at hs
@@ -137,6 +142,15 @@ theorem memSafe_step {s s' : State} {a : Act} (hL : InvL s) (hM : MemSafe s) (hC
     all_goals first | (simp at hs; done) | skip
     all_goals (simp only [Option.some.injEq] at hs; subst hs; intro t' x' hx' hp; have := hM t' x' hx' hp
                simp [setH, upd] at *; first | done | grind)
+  | fork =>
+    simp only [step?] at hs
+    split at hs
+    · simp only [Option.some.injEq] at hs; subst hs
+      intro t' x' hx' hp
+      simp [List.getElem?_map] at hx'
+      obtain ⟨y, _, rfl⟩ := hx'
+      simp at hp
+    · simp at hs
   | eintr w => cases step?_eintr hs; exact hM
   | closeCbs =>
     have hC' := hC rfl
@@ -179,7 +193,7 @@ theorem owed_implies_some_thread_enabled {s : State} (hI : Inv s) (h : Nat)
     by_cases hb : (s.hs h').busy = 0
     · left; simp [step?, loopStep, hl, hb]
     · right
-      have := hI.B.busyEq h'
+      have := hI.B.busyEq h' (hI.L.cloPc h' r (Or.inr hl)).2
       have hpos : 0 < s.snd.countP (critB h') := by omega
       obtain ⟨x, hx, hc⟩ := List.countP_pos_iff.mp hpos
       obtain ⟨t, ht⟩ := List.getElem?_of_mem hx
